@@ -160,6 +160,7 @@ func c30(c *Ctx) {
 			panic(missingStep{"no health-state callback in startHealthCheck"})
 		}
 		rep := callsIn(cb, upd)[0]
+		var curFV *ssa.FreeVar // the captured variable the subchannel's transport is compared with
 		sameTr := func(fc Fact) bool {
 			if fc.Kind != "cmp" || fc.Op != token.EQL {
 				return false
@@ -169,8 +170,11 @@ func c30(c *Ctx) {
 				if !ok {
 					return false
 				}
-				_, isFV := u.X.(*ssa.FreeVar)
-				return isFV && u.X.Name() == "currentTr"
+				fv, isFV := u.X.(*ssa.FreeVar)
+				if isFV {
+					curFV = fv
+				}
+				return isFV
 			}
 			return FieldLoad(fTr)(fc.X) && isCur(fc.Y) || FieldLoad(fTr)(fc.Y) && isCur(fc.X)
 		}
@@ -180,7 +184,7 @@ func c30(c *Ctx) {
 			for _, in := range b.Instrs {
 				if mc, ok := in.(*ssa.MakeClosure); ok && mc.Fn == cb {
 					for i, fv := range cb.FreeVars {
-						if fv.Name() == "currentTr" {
+						if fv == curFV {
 							al, _ := mc.Bindings[i].(*ssa.Alloc)
 							okB := false
 							if al != nil {
